@@ -4,7 +4,7 @@
 cd "$(dirname "$0")"
 for t in translators/t0_consts.py translators/t1_enums.py translators/t2_validate.py translators/t4_selftest.py \
          translators/t6_globals.py translators/t7_reset.py translators/t8_layout.py translators/t9_strerror.py \
-         translators/t14_job.py translators/t1b_tables.py translators/t7_lookup_sizes.py; do
+         translators/t14_job.py translators/t1b_tables.py translators/t7_lookup_sizes.py translators/t3_isa.py; do
   if [ -f "$t" ]; then echo "== $t"; timeout 900 python3 "$t" || echo "translator $t failed (its check will report it)"; fi
 done
 if [ -f translators/t5_cfg.py ]; then
